@@ -472,7 +472,18 @@ def build_config(case, out, chunks, indir):
     if case["form"] == "plain":
         y = os.path.join(indir, "config.yaml")  # the user's own file: not an output directory
         OmegaConf.save(cfg, y)
+        if case.get("key_form", "literal") == "digits":
+            # a hand-written YAML file holds the key unquoted; a digits-only key is then a YAML integer
+            txt = open(y).read()
+            quoted = [q + case["key"] + q for q in ("'", '"')]
+            if not any(q in txt for q in quoted):
+                raise runner.HarnessError("key_form=digits: quoted key not found in the saved YAML")
+            for q in quoted:
+                txt = txt.replace(q, case["key"])
+            open(y, "w").write(txt)
         cfg = OmegaConf.load(y)
+        if case.get("key_form", "literal") == "digits" and not isinstance(OmegaConf.select(cfg, KEYPATH), int):
+            raise runner.HarnessError("key_form=digits: the YAML-loaded key is not an integer")
     return cfg, labels
 
 
@@ -1222,11 +1233,18 @@ def evaluate_history(case):
 # generators
 
 
-KEY_FORMS = ("literal", "env")
+KEY_FORMS = ("literal", "env", "digits")
+
+
+def _digits(key):
+    """Digits-only key of the same length (no leading zero) derived from a hex key."""
+    return "71" + "".join(str(int(ch, 16) % 10) for ch in key[2:])
 
 
 def _case(cfg, key, seed, labels, kills, key_form="literal"):
     m, (fw, delete, npp), uw, ck, form = cfg
+    if key_form == "digits" and not key.isdigit():
+        key = _digits(key)
     return {
         "key_form": key_form,
         "model": m,
@@ -1259,10 +1277,10 @@ def grid_cases(tier):
             (("single_instance", td, False, True, "structured"), "literal"),
             (("single_instance", ncs, True, False, "plain"), "env"),
             (("centroid", nc, True, True, "structured"), "env"),
-            (("centroid", tdf, False, False, "plain"), "literal"),
+            (("centroid", tdf, False, False, "plain"), "digits"),
             (("centered_instance", ncf, False, True, "plain"), "env"),
             (("centered_instance", ncs, True, False, "structured"), "literal"),
-            (("bottomup", ncfs, True, True, "plain"), "literal"),
+            (("bottomup", ncfs, True, True, "plain"), "digits"),
             (("bottomup", nc, False, False, "structured"), "env"),
         ]
         for cfg, kf in picks:
@@ -1289,6 +1307,7 @@ def strategy():
         cfg, key_form = draw(st.sampled_from([(g, kf) for g in GRID for kf in KEY_FORMS]))
         tail = draw(st.text(alphabet="0123456789abcdef", min_size=38, max_size=38))
         key = "c1" + tail  # 40 hex characters; the fixed head keeps shrunk keys from degenerating to a common string
+        # key_form "digits": _case maps the key to digits only (unquoted in a YAML file such a key is an integer)
         seed = draw(st.integers(0, 2**16))
         labels = draw(st.sampled_from(["asset", "one"]))
         # (k, flavour, region) drawn as ONE joint choice of (flavour, region); "fit" = inside Trainer.fit, where
@@ -1320,6 +1339,8 @@ HGRID = [
 
 def _hcase(cfg, key, key2, seed, third, kills, key_form="literal"):
     m, npp, d2, form, uw, ck, ex = cfg
+    if key_form == "digits":
+        key, key2 = (k if k.isdigit() else ("7" + _digits(k)[1:] if k.startswith("c1") else "8" + _digits(k)[1:]) for k in (key, key2))
     return {
         "key_form": key_form,
         "model": m, "npp": npp, "delete2": d2, "form": form, "use_wandb": uw, "save_ckpt": ck, "explicit": ex,
